@@ -935,7 +935,7 @@ func (x *c15Run) finish() {
 	delivered := map[string]bool{}
 	lastErrByDoc := map[string]string{}
 	for _, p := range q.Sends {
-		sends = append(sends, fmt.Sprintf("push doc=%s cid=%s col=%s t=%d..%d done=%v err=%s", short(p.DocID), short(p.Cid), short(p.CollectionID), p.StartMs, p.EndMs, p.Done, firstN(p.Err, 160)))
+		sends = append(sends, fmt.Sprintf("push doc=%s cid=%s col=%s t=%d..%d done=%v err=%s", short(p.DocID), short(p.Cid), short(p.CollectionID), p.StartMs, p.EndMs, p.Done, c15FirstN(p.Err, 160)))
 		if p.Done && p.Err == "" {
 			delivered[p.Cid] = true
 		}
@@ -946,13 +946,13 @@ func (x *c15Run) finish() {
 	out.Detail["A_pushes"] = sends
 	var recvs []string
 	for _, p := range x.b.Journal.Pushes() {
-		recvs = append(recvs, fmt.Sprintf("recv doc=%s cid=%s t=%d..%d done=%v err=%s", short(p.DocID), short(p.Cid), p.StartMs, p.EndMs, p.Done, firstN(p.Err, 200)))
+		recvs = append(recvs, fmt.Sprintf("recv doc=%s cid=%s t=%d..%d done=%v err=%s", short(p.DocID), short(p.Cid), p.StartMs, p.EndMs, p.Done, c15FirstN(p.Err, 200)))
 	}
 	out.Detail["B_received_pushes"] = recvs
 	var fails []string
 	failedDelivered := ""
 	for _, l := range x.mergeFailures() {
-		fails = append(fails, fmt.Sprintf("cid=%s col=%s err=%s", short(l.EventCid()), short(l.Event.CollectionID), firstN(l.Err, 200)))
+		fails = append(fails, fmt.Sprintf("cid=%s col=%s err=%s", short(l.EventCid()), short(l.Event.CollectionID), c15FirstN(l.Err, 200)))
 		if delivered[l.EventCid()] && failedDelivered == "" {
 			failedDelivered = errClass(l.Err)
 		}
@@ -1069,7 +1069,7 @@ func short(s string) string {
 	return s
 }
 
-func firstN(s string, n int) string {
+func c15FirstN(s string, n int) string {
 	if len(s) > n {
 		return s[:n] + "…"
 	}
